@@ -1,18 +1,18 @@
 (* FDL oracle soundness, part 3: the base invariant between the model run and the monitor state, and the rule
    groups of C01 (bus access), C05 (no panic) and C06 (claim after the time-out).
 
-   Known class excluded in C01 / C06 (`no_stale`): a station whose state is Offline has no last_bus_activity.
-   The code violates this after the SECOND address collision while listening, when further telegrams follow
-   in the same receive buffer: the closure of do_listen_token re-creates the station (set_offline) and the
-   next iteration still calls mark_rx on it, so last_bus_activity = Some(now) survives in the offline station.
-   When it is set online again the silence time-out is measured from that stale instant: the station may claim
-   the token in the very poll that takes it online (rule R01_who_may_transmit fires) or earlier than its
-   time-out after going online (R01_claim_before_timeout fires).  See `stale_*` at the end of this file. *)
+   The corner O9 (no class is excluded any more): after the SECOND address collision while listening, when further
+   telegrams follow in the same receive buffer, the closure of do_listen_token re-creates the station
+   (set_offline) and the next iteration still calls mark_rx on it, so last_bus_activity = Some(now) survives in the
+   offline station (`no_stale` below fails).  When it is set online again the silence time-out is measured from
+   that instant: the station may claim the token in the very poll that takes it online.  The monitor follows the
+   code there (an offline station observes nothing, the claim reference is re-based at the self-offline poll);
+   FdlOracleSound2.poll_offline_rst: a poll of an online station ends in state Offline only by that re-creation. *)
 From Coq Require Import Arith.
 From PB Require Import Common Tables FdlTables Telegram Phy TokenRing Params Fdl FdlOracle FdlProofs FdlStepProofs.
 From PB Require Import C05Proofs C01Proofs C09Proofs C12Proofs FdlOracleSound1 FdlOracleSound2.
 
-(* the known class: the states outside it *)
+(* the states outside the corner O9 (not a hypothesis of the theorems; see c01_corner_example) *)
 Definition no_stale (f : fdl) : Prop := f_state f = Offline -> f_lba f = None.
 
 (* ------------------------------------------------------------------------------------------ *)
@@ -152,10 +152,11 @@ Qed.
 Record TI (f : fdl) (tl : Z) (m : mon) : Prop := mkTI {
   ti_lba : forall x, m_lba m = Some x -> match f_lba f with Some l => x <= l | None => x <= tl end;
   ti_some : f_lba f = None -> f_state f = Offline;
-  ti_s1 : m_start m = None -> f_state f = Offline;
+  ti_s1 : m_start m = None -> f_state f = Offline /\ f_lba f = None;
   ti_s2 : forall t0, m_start m = Some t0 -> t0 <= tl /\ forall l, f_lba f = Some l -> t0 <= l;
   ti_q0 : m_quiet m = None -> f_state f = Offline;
-  ti_q1 : forall q, m_quiet m = Some q -> f_lba f <> None /\ forall l, f_lba f = Some l -> l <= q
+  ti_q1 : forall q, m_quiet m = Some q -> f_lba f <> None /\ forall l, f_lba f = Some l -> l <= q;
+  ti_off : f_state f = Offline -> forall l, f_lba f = Some l -> l <= tl
 }.
 
 (* what one poll does to last_bus_activity, as far as the timing monitors need it *)
@@ -187,11 +188,11 @@ Qed.
 Definition grewb (buf nb : bytes) : bool := Nat.ltb (length buf) (length (buf ++ nb)).
 
 Lemma ti_poll f apps buf tl m now busy nb f' o apps' calls :
-  Base f apps buf tl m -> TI f tl m -> no_stale f -> tl <= now -> time_ok now -> all_bytes nb ->
-  poll ops f now (mkPhyIn busy (buf ++ nb)) apps = Ok (f', o, apps', calls) -> no_stale f' ->
+  Base f apps buf tl m -> TI f tl m -> tl <= now -> time_ok now -> all_bytes nb ->
+  poll ops f now (mkPhyIn busy (buf ++ nb)) apps = Ok (f', o, apps', calls) ->
   TI f' now (fst (mon_poll p n m (poll_event now busy (buf ++ nb) f' o calls))).
 Proof.
-  intros HB [Tl Tsome Ts1 Ts2 Tq0 Tq1] HG Hle Hnow Hnb E HG'.
+  intros HB [Tl Tsome Ts1 Ts2 Tq0 Tq1 Toff] Hle Hnow Hnb E.
   pose proof (base_poll _ _ _ _ _ _ _ _ _ _ _ _ HB Hle Hnow Hnb E) as HB'.
   destruct HB as [R Hp Hn Hv Hl Hpd Hb Htl].
   pose proof (poll_lba_case _ _ _ _ _ _ _ _ _ E) as LC.
@@ -199,11 +200,11 @@ Proof.
   set (s := poll_event now busy (buf ++ nb) f' o calls) in *.
   rewrite fst_mon_poll.
   (* the connectivity of the old station: offline (the poll is a no-op) or online *)
-  assert (Hconn : (f' = f /\ f_lba f = None /\ f_state f = Offline /\ f_conn f = ConnOffline) \/ f_conn f = ConnOnline).
+  assert (Hconn : (f' = f /\ tx o = None /\ f_state f = Offline /\ f_conn f = ConnOffline) \/ f_conn f = ConnOnline).
   { pose proof (rep_conn _ _ R) as C. destruct (f_conn f) eqn:Ec.
     - left. assert (Hs : f_state f = Offline) by (destruct (f_state f); cbn in C; try congruence; try contradiction; reflexivity).
-      rewrite (poll_offline_noop A ops f now _ apps Ec Hs) in E. injection E as <- _ _ _.
-      split; [reflexivity|]. split; [exact (HG Hs)|]. split; [exact Hs|reflexivity].
+      rewrite (poll_offline_noop A ops f now _ apps Ec Hs) in E. injection E as <- <- _ _.
+      split; [reflexivity|]. split; [reflexivity|]. split; [exact Hs|reflexivity].
     - exfalso. destruct (f_state f); cbn in C; try congruence; contradiction.
     - right. reflexivity. }
   assert (Hoff' : f_conn f' = ConnOffline -> f_state f' = Offline).
@@ -280,18 +281,20 @@ Proof.
     + exact S1.
   - (* ti_s1 *)
     rewrite m_start_x_m3. unfold x_start, x_online, x_post. cbn [s_view s poll_event view_of v_conn].
-    intros H. apply Hoff'. destruct (f_conn f'); [reflexivity| |]; destruct (m_start m); discriminate H.
+    intros H. rewrite Hpo in H.
+    destruct (f_conn f') eqn:Ec'; [|destruct (m_start m); discriminate H|destruct (m_start m); discriminate H].
+    destruct Hconn as [(-> & _ & _ & Ec0)|Ec0]; rewrite Ec0 in H; [exact (Ts1 H)|discriminate H].
   - (* ti_s2 *)
     rewrite m_start_x_m3. unfold x_start, x_online, x_post. cbn [s_view s_now s poll_event view_of v_conn].
     intros t0 H.
     destruct (f_conn f') eqn:Ec'.
-    { (* the station is offline after the poll: it has no last_bus_activity (known class excluded) *)
-      pose proof (HG' (Hoff' eq_refl)) as E0'.
-      assert (Ht0 : t0 <= now).
-      { rewrite Hpo in H. destruct Hconn as [(_ & _ & _ & Ec0)|Ec0]; rewrite Ec0 in H.
-        - destruct (Ts2 t0 H) as (Ht & _). lia.
-        - injection H as <-. lia. }
-      split; [exact Ht0|]. intros l' El'. rewrite E0' in El'. discriminate El'. }
+    { (* the station is offline after the poll: it was offline before (the poll is a no-op), or it has re-created
+         itself in this poll and its last_bus_activity, if any, is `now` (O9) *)
+      rewrite Hpo in H. destruct Hconn as [(-> & _ & _ & Ec0)|Ec0]; rewrite Ec0 in H.
+      - destruct (Ts2 t0 H) as (Ht & Hl0). split; [lia|exact Hl0].
+      - injection H as <-. split; [lia|]. intros l' El'.
+        destruct (poll_offline_rst A ops _ _ _ _ _ _ _ _ E Ec0 (Hoff' eq_refl)) as (_ & _ & _ & [L1|L1]); rewrite L1 in El';
+          [discriminate El'|injection El' as <-; lia]. }
     { exfalso. pose proof (rep_conn _ _ (b_rep _ _ _ _ _ HB')) as C. rewrite Ec' in C. destruct (f_state f'); cbn in C; try congruence; contradiction. }
     assert (Hc' : ConnOnline <> ConnOffline) by discriminate.
     assert (H0 : (m_start m = Some t0) \/ (m_start m = None /\ t0 = now)).
@@ -304,7 +307,7 @@ Proof.
       * rewrite L' in El'. injection El' as <-. destruct (f_lba f) as [l|] eqn:El; cbn [gv]; [exact (Hl0 l eq_refl)|lia].
       * rewrite L' in El'. injection El' as <-. destruct (f_lba f) as [l|] eqn:El; cbn [gv]; [specialize (Hl0 l eq_refl); lia|lia].
       * congruence.
-    + split; [lia|]. intros l' El'. pose proof (HG (Ts1 Es)) as E0.
+    + split; [lia|]. intros l' El'. destruct (Ts1 Es) as (_ & E0).
       destruct LC as [wire l Etx L' Hb0 Hng El Hlt|Etx L'|Etx L'|Etx M L'|Etx (S1 & C1 & P1 & L1) Hl1].
       * rewrite E0 in El. discriminate El.
       * rewrite L', E0 in El'. discriminate El'.
@@ -331,7 +334,9 @@ Proof.
     clear H.
     assert (Hmq : forall q0, m_quiet m = Some q0 -> exists l, f_lba f = Some l /\ l <= q0).
     { intros q0 Eq. destruct (Tq1 q0 Eq) as (Hne & Hle0). destruct (f_lba f) as [l|]; [exists l; split; [reflexivity|exact (Hle0 l eq_refl)]|contradiction]. }
-    assert (Hm0 : m_quiet m = None -> f_lba f = None) by (intros Eq; exact (HG (Tq0 Eq))).
+    assert (Hm0 : m_quiet m = None -> forall l, f_lba f = Some l -> l <= now)
+      by (intros Eq l El; specialize (Toff (Tq0 Eq) l El); lia).
+    assert (Hcase : (exists l, f_lba f = Some l) \/ f_lba f = None) by (destruct (f_lba f); eauto).
     destruct LC as [wire l Etx L' Hb0 Hng El Hlt|Etx L'|Etx L'|Etx M L'|Etx (S1 & C1 & P1 & L1) Hl1]; rewrite Etx in H0.
     + split; [rewrite L'; discriminate|]. intros l' El'. rewrite L', Hp in El'. injection El' as <-. injection H0 as ->.
       destruct (m_quiet m); cbn [zmax_opt]; lia.
@@ -339,34 +344,48 @@ Proof.
       * destruct (Hmq q0 eq_refl) as (l & El & Hlq). split; [rewrite L', El; discriminate|].
         intros l' El'. rewrite L', El in El'. injection El' as <-.
         destruct (busy || _); injection H0 as ->; cbn [zmax_opt]; lia.
-      * pose proof (Hm0 eq_refl) as E0. split.
-        -- intros C. apply Hc'. pose proof (Hfresh E0 C) as Hs'.
-           destruct Hconn as [(-> & _ & _ & Ec)|Ec]; [exact Ec|].
-           destruct (poll_online_lba_some A ops now _ _ _ _ _ _ _ E Ec (Tsome E0) E0) as [C2|(_ & C2 & _)]; [contradiction|exact C2].
-        -- intros l' El'. rewrite L', E0 in El'. discriminate El'.
+      * destruct Hcase as [(l & El)|E0].
+        -- split; [rewrite L', El; discriminate|]. intros l' El'. rewrite L', El in El'. injection El' as <-.
+           specialize (Hm0 eq_refl l El). destruct (busy || _); injection H0 as ->; cbn [zmax_opt]; lia.
+        -- split.
+           ++ intros C. apply Hc'. pose proof (Hfresh E0 C) as Hs'.
+              destruct Hconn as [(-> & _ & _ & Ec)|Ec]; [exact Ec|].
+              destruct (poll_online_lba_some A ops now _ _ _ _ _ _ _ E Ec (Tsome E0) E0) as [C2|(_ & C2 & _)]; [contradiction|exact C2].
+           ++ intros l' El'. rewrite L', E0 in El'. discriminate El'.
     + split; [rewrite L'; discriminate|]. intros l' El'. rewrite L' in El'. injection El' as <-.
       destruct (m_quiet m) as [q0|] eqn:Eq.
       * destruct (Hmq q0 eq_refl) as (l & El & Hlq). rewrite El. cbn [gv].
         destruct (busy || _); injection H0 as ->; cbn [zmax_opt]; lia.
-      * rewrite (Hm0 eq_refl). cbn [gv]. destruct (busy || _); injection H0 as ->; cbn [zmax_opt]; lia.
+      * destruct Hcase as [(l & El)|E0]; [rewrite El; specialize (Hm0 eq_refl l El)|rewrite E0]; cbn [gv];
+          destruct (busy || _); injection H0 as ->; cbn [zmax_opt]; lia.
     + split; [rewrite L'; discriminate|]. intros l' El'. rewrite L' in El'. injection El' as <-.
       assert (Hb1 : busy || match buf ++ nb with [] => false | _ => true end = true).
       { destruct M as [-> | M]; [reflexivity|]. destruct (buf ++ nb); [contradiction|apply orb_true_r]. }
       rewrite Hb1 in H0. injection H0 as ->.
       destruct (m_quiet m) as [q0|] eqn:Eq; cbn [zmax_opt].
       * destruct (Hmq q0 eq_refl) as (l & El & Hlq). rewrite El. cbn [gv]. lia.
-      * rewrite (Hm0 eq_refl). cbn [gv]. lia.
+      * destruct Hcase as [(l & El)|E0]; [rewrite El; specialize (Hm0 eq_refl l El)|rewrite E0]; cbn [gv]; lia.
     + contradiction.
+  - (* ti_off *)
+    intros Hs' l' El'.
+    destruct Hconn as [(-> & _ & Hs & _)|Ec0].
+    + specialize (Toff Hs l' El'). lia.
+    + destruct (poll_offline_rst A ops _ _ _ _ _ _ _ _ E Ec0 Hs') as (_ & _ & _ & [L1|L1]); rewrite L1 in El';
+        [discriminate El'|injection El' as <-; lia].
 Qed.
 
 Lemma ti_api a f apps buf tl m g f' :
   Base f apps buf tl m -> TI f tl m -> api_result p a f = Ok f' ->
   TI f' tl (fst (mon_after_api a (view_of f') m g)).
 Proof.
-  intros HB [Tl Tsome Ts1 Ts2 Tq0 Tq1] E.
+  intros HB [Tl Tsome Ts1 Ts2 Tq0 Tq1 Toff] E.
   assert (Hnew : forall f1 v k, fdl_new p = Ok f1 -> TI f1 tl (mon_reset v k)).
   { intros f1 v k E1. destruct (fdl_new_fields _ _ E1) as (S1 & _ & L1 & _).
-    constructor; cbn [mon_reset m_lba m_start m_quiet]; try discriminate; intros; exact S1. }
+    constructor; cbn [mon_reset m_lba m_start m_quiet]; try discriminate.
+    - intros _. exact S1.
+    - intros _. split; assumption.
+    - intros _. exact S1.
+    - intros _ l C. rewrite L1 in C. discriminate C. }
   destruct a; cbn [api_result mon_after_api fst] in *.
   - apply Hnew. exact E.
   - unfold set_online, set_state in E. injection E as <-. constructor; cbn; assumption.
@@ -384,14 +403,14 @@ Lemma x_k0_base f apps buf tl m : Base f apps buf tl m -> x_k0 m = kind_of (f_st
 Proof. intros HB. unfold x_k0, x_pre. rewrite (b_view _ _ _ _ _ HB). reflexivity. Qed.
 
 Lemma c01_ok f apps buf tl m now busy nb f' o apps' calls :
-  Base f apps buf tl m -> TI f tl m -> no_stale f -> tl <= now -> time_ok now -> all_bytes nb ->
+  Base f apps buf tl m -> TI f tl m -> tl <= now -> time_ok now -> all_bytes nb ->
   poll ops f now (mkPhyIn busy (buf ++ nb)) apps = Ok (f', o, apps', calls) ->
   x_e01 p m (poll_event now busy (buf ++ nb) f' o calls) = [].
 Proof.
-  intros HB HT HG Hle Hnow Hnb E.
+  intros HB HT Hle Hnow Hnb E.
   pose proof (poll_lba_case _ _ _ _ _ _ _ _ _ E) as LC.
   pose proof (x_k0_base _ _ _ _ _ HB) as Hk0.
-  destruct HB as [R Hp Hn Hv Hl Hpd Hb Htl]. destruct HT as [Tl Tsome Ts1 Ts2 Tq0 Tq1].
+  destruct HB as [R Hp Hn Hv Hl Hpd Hb Htl]. destruct HT as [Tl Tsome Ts1 Ts2 Tq0 Tq1 Toff].
   set (s := poll_event now busy (buf ++ nb) f' o calls) in *.
   unfold x_e01. cbn [s_tx s poll_event]. destruct (tx o) as [wire|] eqn:Etx; [|reflexivity].
   destruct LC as [wire' l Etx' L' Hb0 Hng El Hlt|C _|C _|C _ _|C _ _]; try discriminate C. injection Etx' as <-.
@@ -408,7 +427,25 @@ Proof.
   pose proof (bv_timeouts _ Hbv) as (Hslot & Hto).
   destruct (f_state f) as [ | |sr cc|sr nps cc|tk fa fcd|st|a tk fa|dg att|att|a] eqn:Es; cbn [kind_of kind_in existsb state_kind_eqb orb];
     try reflexivity.
-  - (* Offline: excluded *) rewrite (HG Es) in El. discriminate El.
+  - (* Offline: the poll takes the station online; the only transmission is the claim - at once when the station
+       kept a last_bus_activity from its re-creation (O9) *)
+    assert (Hcl : wire = encode_token (ts f) (ts f) /\ kind_of (f_state f') = KClaimToken).
+    { destruct (poll_transmissions A ops _ _ _ _ _ _ _ _ _ E Etx) as [(cs & i & hp & er & _ & [K|K] & _)|(_ & [Htok|[Hgap|Hrep]])];
+        try (rewrite Es in K; discriminate K).
+      - destruct Htok as (da & Hw & [(Hda & Hcl)|(_ & [K|[K|[K|[K|K]]]])]); try (rewrite Es in K; discriminate K).
+        subst da. split; [exact Hw|]. destruct Hcl as [(S & _)|(S & _)]; rewrite S; reflexivity.
+      - exfalso. destruct Hgap as (a & _ & _ & _ & _ & _ & [(_ & [(att & K)|[K|K]])|(_ & [K|(a0 & K)])]); rewrite Es in K; discriminate K.
+      - exfalso. destruct Hrep as (src & st & _ & [(cc & K & _)|(nps & cc & K & _)]); rewrite Es in K; discriminate K. }
+    destruct Hcl as (Hw & Hs').
+    unfold x_txt. cbn [s_tx s poll_event]. rewrite Etx, Hw, decode_one_token.
+    unfold is_claim_token. rewrite Hts, bytes_eqb_refl. cbn [check app].
+    destruct (poll_claim_needs_timeout A ops _ _ _ _ _ _ _ _ E ltac:(right; right; rewrite Es; reflexivity) Hs' ltac:(rewrite Hp; exact Hto))
+      as (l2 & El2 & _ & Hl2). rewrite El in El2. injection El2 as <-.
+    destruct (m_start m) as [t0|] eqn:Est; [|destruct (Ts1 eq_refl) as (_ & C); rewrite C in El; discriminate El].
+    destruct (Ts2 t0 eq_refl) as (_ & Ht0). specialize (Ht0 l El).
+    rewrite Hxl. replace (token_lost_timeout p <=? x_now s - zmax_opt (m_lba m) t0) with true; [reflexivity|].
+    symmetry. apply Z.leb_le. unfold x_now. cbn [s_now s poll_event]. rewrite Hp in Hl2.
+    destruct (m_lba m) as [x|] eqn:Em; cbn [zmax_opt]; [specialize (Tl x eq_refl); rewrite El in Tl; lia|lia].
   - (* PassiveIdle *) exfalso. pose proof (rep_st _ _ R) as St. rewrite Es in St. exact St.
   - (* ListenToken *)
     destruct (listen_idle_transmissions A ops _ _ _ _ _ _ _ _ _ E ltac:(left; rewrite Es; reflexivity) Etx) as (_ & [(Hw & Hs')|(src & st & Hm & Hw & _)]).
@@ -416,7 +453,7 @@ Proof.
       unfold is_claim_token. rewrite Hts, bytes_eqb_refl. cbn [check app].
       destruct (poll_claim_needs_timeout A ops _ _ _ _ _ _ _ _ E ltac:(left; rewrite Es; reflexivity) ltac:(rewrite Hs'; reflexivity) ltac:(rewrite Hp; exact Hto))
         as (l2 & El2 & _ & Hl2). rewrite El in El2. injection El2 as <-.
-      destruct (m_start m) as [t0|] eqn:Est; [|specialize (Ts1 eq_refl); discriminate Ts1].
+      destruct (m_start m) as [t0|] eqn:Est; [|destruct (Ts1 eq_refl) as (C & _); discriminate C].
       destruct (Ts2 t0 eq_refl) as (_ & Ht0). specialize (Ht0 l El).
       rewrite Hxl. replace (token_lost_timeout p <=? x_now s - zmax_opt (m_lba m) t0) with true; [reflexivity|].
       symmetry. apply Z.leb_le. unfold x_now. cbn [s_now s poll_event]. rewrite Hp in Hl2.
@@ -433,7 +470,7 @@ Proof.
       unfold is_claim_token. rewrite Hts, bytes_eqb_refl. cbn [check app].
       destruct (poll_claim_needs_timeout A ops _ _ _ _ _ _ _ _ E ltac:(right; left; rewrite Es; reflexivity) ltac:(rewrite Hs'; reflexivity) ltac:(rewrite Hp; exact Hto))
         as (l2 & El2 & _ & Hl2). rewrite El in El2. injection El2 as <-.
-      destruct (m_start m) as [t0|] eqn:Est; [|specialize (Ts1 eq_refl); discriminate Ts1].
+      destruct (m_start m) as [t0|] eqn:Est; [|destruct (Ts1 eq_refl) as (C & _); discriminate C].
       destruct (Ts2 t0 eq_refl) as (_ & Ht0). specialize (Ht0 l El).
       rewrite Hxl. replace (token_lost_timeout p <=? x_now s - zmax_opt (m_lba m) t0) with true; [reflexivity|].
       symmetry. apply Z.leb_le. unfold x_now. cbn [s_now s poll_event]. rewrite Hp in Hl2.
@@ -461,7 +498,7 @@ Lemma c06_ok f apps buf tl m now busy nb f' o apps' calls :
 Proof.
   intros HB HT Hle Hnow Hnb E.
   pose proof (x_k0_base _ _ _ _ _ HB) as Hk0.
-  destruct HB as [R Hp Hn Hv Hl Hpd Hb Htl]. destruct HT as [Tl Tsome Ts1 Ts2 Tq0 Tq1].
+  destruct HB as [R Hp Hn Hv Hl Hpd Hb Htl]. destruct HT as [Tl Tsome Ts1 Ts2 Tq0 Tq1 Toff].
   unfold x_e06. rewrite Hk0. cbn [s_busy s_rx s_tx poll_event].
   destruct (kind_in (kind_of (f_state f)) [KListenToken; KActiveIdle]) eqn:Ek; [|reflexivity].
   destruct busy; [reflexivity|]. cbn [negb andb].
@@ -566,67 +603,75 @@ Hypothesis Happs : apps_total A ops.
 Hypothesis Hbv : builder_valid p.
 
 Definition J1 (n : nat) (f : fdl) (apps : list A) (buf : bytes) (tl : Z) (m : mon) (g : mon2) : Prop :=
-  Base A p n f apps buf tl m /\ TI f tl m /\ no_stale f.
+  Base A p n f apps buf tl m /\ TI f tl m.
 
-Lemma J1_init n f0 apps : fdl_new p = Ok f0 -> length apps = n -> no_stale f0 ->
+Lemma J1_init n f0 apps : fdl_new p = Ok f0 -> length apps = n ->
   J1 n f0 apps [] 0 (mon_reset (view_of f0) 0) mon2_reset.
 Proof.
-  intros E Hn HG. split; [eapply base_init; eassumption|]. split; [|exact HG].
+  intros E Hn. split; [eapply base_init; eassumption|].
   destruct (fdl_new_fields _ _ E) as (S1 & _ & L1 & _).
-  constructor; cbn [mon_reset m_lba m_start m_quiet]; try discriminate; intros; exact S1.
+  constructor; cbn [mon_reset m_lba m_start m_quiet]; try discriminate.
+  - intros _. exact S1.
+  - intros _. split; assumption.
+  - intros _. exact S1.
+  - intros _ l C. rewrite L1 in C. discriminate C.
 Qed.
 
 Lemma J1_api n a f apps buf tl m g f' :
-  J1 n f apps buf tl m g -> api_result p a f = Ok f' -> no_stale f' ->
+  J1 n f apps buf tl m g -> api_result p a f = Ok f' ->
   J1 n f' apps buf tl (fst (mon_after_api a (view_of f') m g)) (snd (mon_after_api a (view_of f') m g)).
 Proof.
-  intros (HB & HT & _) E HG. split; [eapply base_api; eassumption|]. split; [|exact HG].
+  intros (HB & HT) E. split; [eapply base_api; eassumption|].
   eapply ti_api; eassumption.
 Qed.
 
 Lemma J1_poll n f apps buf tl m g now busy nb f' o apps' calls :
   J1 n f apps buf tl m g -> tl < now -> time_ok now -> all_bytes nb ->
-  poll ops f now (mkPhyIn busy (buf ++ nb)) apps = Ok (f', o, apps', calls) -> no_stale f' ->
+  poll ops f now (mkPhyIn busy (buf ++ nb)) apps = Ok (f', o, apps', calls) ->
   J1 n f' apps' (rx_left o) now (fst (mon_poll p n m (poll_event now busy (buf ++ nb) f' o calls)))
                                 (fst (mon_poll2 p n m g (poll_event now busy (buf ++ nb) f' o calls))).
 Proof.
-  intros (HB & HT & HG) Hlt Hnow Hnb E HG'. assert (Hle : tl <= now) by lia.
-  split; [eapply base_poll; eassumption|]. split; [|exact HG'].
+  intros (HB & HT) Hlt Hnow Hnb E. assert (Hle : tl <= now) by lia.
+  split; [eapply base_poll; eassumption|].
   eapply ti_poll; eassumption.
 Qed.
 
-(* C01: no rule of C01 fires on a transcript of the model, outside the known class `no_stale` *)
+Lemma transcript_ok_true (apps : list A) (ins : list minput) : transcript_ok A ops p (fun _ => True) apps ins.
+Proof. unfold transcript_ok. destruct (fdl_new p); [split; [exact I|apply run_ok_true]|exact I|exact I]. Qed.
+
+(* C01: no rule of C01 fires on a transcript of the model - for ALL input histories, the O9 corner included *)
 Theorem c01_oracle_sound (apps : list A) (ins : list minput) :
-  ins_ok 0 ins -> transcript_ok A ops p no_stale apps ins ->
+  ins_ok 0 ins ->
   forall k r, In (k, r) (monitor p (length apps) (model_transcript A ops p apps ins)) -> rule_prop r <> PC01.
 Proof.
-  intros Hok Hrun.
-  apply (generic_sound_transcript A ops p (length apps) (fun r => rule_prop r <> PC01) (J1 (length apps)) no_stale); try assumption; try reflexivity.
+  intros Hok.
+  apply (generic_sound_transcript A ops p (length apps) (fun r => rule_prop r <> PC01) (J1 (length apps)) (fun _ => True)); try assumption; try reflexivity.
   - discriminate.
-  - intros a f apps0 buf tl m g f' HJ E HG. exact (J1_api _ _ _ _ _ _ _ _ _ HJ E HG).
-  - intros f apps0 buf tl m g now busy nb f' o apps' calls HJ Hle Hnow Hnb E HG'.
-    split; [|split; [|exact (J1_poll _ _ _ _ _ _ _ _ _ _ _ _ _ _ HJ Hle Hnow Hnb E HG')]].
-    + destruct HJ as (HB & HT & HG). assert (Hle' : tl <= now) by lia.
+  - intros a f apps0 buf tl m g f' HJ E _. exact (J1_api _ _ _ _ _ _ _ _ _ HJ E).
+  - intros f apps0 buf tl m g now busy nb f' o apps' calls HJ Hle Hnow Hnb E _.
+    split; [|split; [|exact (J1_poll _ _ _ _ _ _ _ _ _ _ _ _ _ _ HJ Hle Hnow Hnb E)]].
+    + destruct HJ as (HB & HT). assert (Hle' : tl <= now) by lia.
       apply mon_poll_errs_other; try discriminate.
       * intros _. eapply c01_ok; eassumption.
       * apply x_fold_other; discriminate.
     + apply mon_poll2_errs_other; try discriminate. apply y_e_live_other; discriminate.
-  - intros f0 apps0 E Hn HG. exact (J1_init _ _ _ E Hn HG).
+  - intros f0 apps0 E Hn _. exact (J1_init _ _ _ E Hn).
+  - apply transcript_ok_true.
 Qed.
 
-(* C06: the rule R06_no_claim_after_timeout (the claim after the time-out) never fires, outside the same known
-   class; the other rule of C06, R06_no_backoff, is treated in a later part *)
+(* C06: the rule R06_no_claim_after_timeout (the claim after the time-out) never fires; the other rule of C06,
+   R06_no_backoff, is treated in a later part *)
 Theorem c06_claim_oracle_sound (apps : list A) (ins : list minput) :
-  ins_ok 0 ins -> transcript_ok A ops p no_stale apps ins ->
+  ins_ok 0 ins ->
   forall k r, In (k, r) (monitor p (length apps) (model_transcript A ops p apps ins)) -> r <> R06_no_claim_after_timeout.
 Proof.
-  intros Hok Hrun.
-  apply (generic_sound_transcript A ops p (length apps) (fun r => r <> R06_no_claim_after_timeout) (J1 (length apps)) no_stale); try assumption; try reflexivity.
+  intros Hok.
+  apply (generic_sound_transcript A ops p (length apps) (fun r => r <> R06_no_claim_after_timeout) (J1 (length apps)) (fun _ => True)); try assumption; try reflexivity.
   - discriminate.
-  - intros a f apps0 buf tl m g f' HJ E HG. exact (J1_api _ _ _ _ _ _ _ _ _ HJ E HG).
-  - intros f apps0 buf tl m g now busy nb f' o apps' calls HJ Hle Hnow Hnb E HG'.
-    split; [|split; [|exact (J1_poll _ _ _ _ _ _ _ _ _ _ _ _ _ _ HJ Hle Hnow Hnb E HG')]].
-    + destruct HJ as (HB & HT & HG). assert (Hle' : tl <= now) by lia.
+  - intros a f apps0 buf tl m g f' HJ E _. exact (J1_api _ _ _ _ _ _ _ _ _ HJ E).
+  - intros f apps0 buf tl m g now busy nb f' o apps' calls HJ Hle Hnow Hnb E _.
+    split; [|split; [|exact (J1_poll _ _ _ _ _ _ _ _ _ _ _ _ _ _ HJ Hle Hnow Hnb E)]].
+    + destruct HJ as (HB & HT). assert (Hle' : tl <= now) by lia.
       intros r Hr ->. rewrite mon_poll_eq in Hr. cbn [snd] in Hr.
       assert (H6 : x_e06 p m (poll_event now busy (buf ++ nb) f' o calls) = []) by (eapply c06_ok; eassumption).
       rewrite H6 in Hr. cbn [app] in Hr.
@@ -654,7 +699,8 @@ Proof.
              | In _ (match ?x with _ => _ end) => destruct x
              end; try contradiction.
       unfold check in Hr. destruct (_ && _); [contradiction|]. destruct Hr as [C|[]]. discriminate C.
-  - intros f0 apps0 E Hn HG. exact (J1_init _ _ _ E Hn HG).
+  - intros f0 apps0 E Hn _. exact (J1_init _ _ _ E Hn).
+  - apply transcript_ok_true.
 Qed.
 
 (* C05: with total applications no call of the model panics (C05_no_panic) - except the documented
@@ -714,7 +760,7 @@ Qed.
 End Theorems.
 
 (* ------------------------------------------------------------------------------------------ *)
-(* the excluded corner, computed: the monitors accept the transcript, the run leaves `no_stale`     *)
+(* the corner O9, computed: the monitors accept the transcript, the run leaves `no_stale`          *)
 Definition ex_corner_params : params := mkParams 3 B19200 100 80000 1 16 1 11 None.
 Definition ex_corner_inputs : list minput :=
   [InApi ApiOnline; InPoll 834 false []; InPoll 2629 false [220;5;3;220;5;3;220;5;3]; InApi ApiOnline; InPoll 134064 false []].
